@@ -64,8 +64,8 @@ def campaign(wd, scs, label="e2e"):
     return camp
 
 
-def run(pid, tier, wd=None):
-    """Runs the scenarios owned by `pid` on the real daemon and returns the tags of `pid`."""
+def run(pid, tier, wd=None, also=None):
+    """Runs the scenarios owned by `pid` on the real daemon and returns the tags of `pid` (and those `also(tag)` accepts)."""
     global last_stats
     if wd is None:
         wd = os.path.join(WORK, pid, "e2e")
@@ -82,7 +82,7 @@ def run(pid, tier, wd=None):
         if t["prop"] != pid:
             others["%s.%s" % (t["prop"], t["what"])] = others.get("%s.%s" % (t["prop"], t["what"]), 0) + 1
     last_stats["tags_of_other_properties"] = others
-    return [t for t in camp.tags if t["prop"] == pid]
+    return [t for t in camp.tags if t["prop"] == pid or (also is not None and also(t))]
 
 
 def main(tier, replay=None):
